@@ -82,7 +82,7 @@ func runC22(r *lib.Run) {
 			k := rng.Intn(len(scope.Path) + 1)
 			prefix := scope.Path[:k]
 			skip64 := !withSchema
-			ups := leafUpdates(o, scope.Path, skip64)
+			ups := leafUpdatesK(o, scope.Path, skip64, true)
 			// paths relative to prefix
 			for _, u := range ups {
 				u.Path = &gpb.Path{Elem: append(append([]*gpb.PathElem{}, lib.ToGNMIPath(scope.Path[k:]).Elem...), u.Path.Elem...)}
@@ -125,7 +125,7 @@ func runC22(r *lib.Run) {
 				rewrites["json-for-leaves"] = &gpb.SetRequest{Prefix: lib.ToGNMIPath(prefix), Update: []*gpb.Update{ju}}
 			}
 			k2 := (k + 1) % (len(scope.Path) + 1)
-			ups2 := leafUpdates(o, scope.Path, skip64)
+			ups2 := leafUpdatesK(o, scope.Path, skip64, true)
 			for _, u := range ups2 {
 				u.Path = &gpb.Path{Elem: append(append([]*gpb.PathElem{}, lib.ToGNMIPath(scope.Path[k2:]).Elem...), u.Path.Elem...)}
 			}
@@ -171,11 +171,13 @@ func runC22(r *lib.Run) {
 					if strings.Contains(why, "e+0") || strings.Contains(why, "e+1") {
 						cls = "numeric-key-rendered-with-exponent"
 					}
-					if !cfg.Compressed && name == "json-for-leaves" && strings.Contains(why, "][") {
+					sigf := name + ":" + mode + ":" + kind + ":" + cls
+					if !cfg.Compressed && name == "json-for-leaves" {
 						// non-OpenConfig list: every direct leaf child of an entry is taken for a key
-						cls = "non-openconfig-list-entry"
+						// when the JSON (or the marshalled GoStruct) is flattened
+						sigf = "json-for-leaves:schema:non-openconfig-list-entry"
 					}
-					r.Violate("same-intent-differs", name+":"+mode+":"+kind+":"+cls, why, wb)
+					r.Violate("same-intent-differs", sigf, why, wb)
 				} else {
 					r.Hit("rewrite-ok:" + name)
 				}
@@ -222,7 +224,7 @@ func obsForJSON(o *lib.Obs, skip64 bool) *lib.Obs {
 	}
 	n := lib.NewObs()
 	for p, l := range o.Leaves {
-		if strings.HasPrefix(l.Val, "int64:") || strings.HasPrefix(l.Val, "uint64:") || strings.Contains(l.Val, `"int64:`) || strings.Contains(l.Val, `"uint64:`) || strings.Contains(l.Val, "float64:") {
+		if has64Key(l.Elems) || strings.HasPrefix(l.Val, "int64:") || strings.HasPrefix(l.Val, "uint64:") || strings.Contains(l.Val, `"int64:`) || strings.Contains(l.Val, `"uint64:`) || strings.Contains(l.Val, "float64:") {
 			continue
 		}
 		n.Leaves[p] = l
